@@ -427,7 +427,10 @@ class TxPipeline(Elaboratable):
         #
         # Bit-stuffing and NRZI.
         #
-        bitstuff = ResetInserter(da_reset_bitstuff)(TxBitstuffer())
+        # The bit stuffer lives in the ``usb`` domain, so the reset has to be inserted there (a bare signal
+        # would be applied to the unused ``sync`` domain). Restart it together with the shifter at the end
+        # of SYNC, so ones counted while idle can never stall the load of the first byte.
+        bitstuff = ResetInserter({"usb": da_reset_bitstuff | sp_reset_shifter})(TxBitstuffer())
         m.submodules.bitstuff = bitstuff
 
         m.submodules.nrzi = nrzi = TxNRZIEncoder()
